@@ -411,3 +411,32 @@ CHECKS["C15"] = {
                     "tasks are atomic: overlap inside tasks is not exercised (see C03's race check)"],
     "deadline": {"quick": 420, "thorough": 3000},
 }
+
+
+def num_check(mode, libs, rule):
+    return {
+        "builds": [{"name": "num_driver", "objects": [{"source": "drivers/num_driver.cpp", "flags": ["-O2", "-g", "-fopenmp", "-DVF_" + mode, "-DTBF_USE_FFTW"]}, SCHED_OBJ],
+                    "link": ["-ldl"] + libs}],
+        "runs": [{"driver": "num_driver", "args": ["--mode", mode], "slices": 16}],
+        "level": "exploration",
+        "replayable": False,
+        "rule": rule,
+        "assumptions": ["x87 long double direct sum as the reference", "error bounds are fixed constants: 3 x the worst case measured over this deterministic space on the delivered tree (empirical; the weakest oracle of the suite)",
+                        "values are continuous: only the enumerated particle sets / boxes / heights are covered", "OpenMP executor through the mock runtime (harness/sched) under named schedules"],
+        "deadline": {"quick": 900, "thorough": 3000},
+    }
+
+
+CHECKS["C04"] = num_check("C04", [],
+    "rotation kernel: every (P in {4,8}; thorough adds 6,12) x height 1..5 (6) x box {unit, centre -11.3 width 3.7, centre 100 width 1/64} x 5 "
+    "deterministic particle sets (points on cell/box faces and edges; clustered corner + far particles; two far clusters; low-discrepancy "
+    "set; leaf centres and axes) with charges of both signs x double (thorough: float) x grouping/executor matrix {single group; block 1; "
+    "block 3 one-group-per-parent; OpenMP under defer-all FIFO and LIFO (thorough: inverted priority, run-at-creation, automatic block "
+    "size)}; oracle: finite results; error against a long double direct sum, normalised by the sum of absolute pair contributions, below "
+    "the per-order bound; errors not growing with the order; results equal to 2^16 eps across groupings/executors; potential linear in "
+    "the charges (q = q1 + q2). evaluations = FMM executions; non-trivial = height >= 4 (M2M/L2L used).")
+CHECKS["C05"] = num_check("C05", ["-lfftw3", "-lfftw3f"],
+    "uniform kernel: every (order in {4,6}; thorough adds 3,5,7,8) x height 1..5 (6) x 3 boxes x 5 particle sets x double (thorough: float) "
+    "x grouping/executor matrix (block size 1 delivers the children of a parent in several batches, single group in one); oracle as C04: "
+    "finite, error below the per-order bound, error shrinking with the order, equal to rounding across groupings/executors/batches, "
+    "linear in the charges.")
